@@ -32,16 +32,30 @@ fn name_hash(name: &str) -> u16 {
 
 /// names with the same two leading characters, the same extension and the same 16-bit hash
 pub fn same_hash_family(prefix: &str, ext: &str, want: usize, salt: u64) -> Vec<String> {
+    same_hash_family_target(prefix, " long ", ext, want, salt, None)
+}
+
+/// ... with a chosen hash value (e.g. 0xFFFF: the retry path increments the hash, which must wrap at 16 bits) and a
+/// chosen middle part (e.g. the hash's own hex digits: the 6-character prefix form and the hash form then coincide)
+pub fn same_hash_family_target(prefix: &str, middle: &str, ext: &str, want: usize, salt: u64, target: Option<u16>) -> Vec<String> {
     let mut out: Vec<String> = Vec::new();
-    let mut target: Option<u16> = None;
+    let want_target = target.is_some();
+    let mut target: Option<u16> = target;
     let mut m = run::Mix::new(salt, 16);
     let mut tries = 0u64;
     while out.len() < want && tries < 40_000_000 {
         tries += 1;
         let mut s = String::from(prefix);
-        s.push_str(" long ");
-        for _ in 0..6 {
-            s.push((b'a' + m.below(26) as u8) as char);
+        s.push_str(middle);
+        // six letters reach only part of the 16-bit range; a chosen target needs a longer, wider tail
+        if target.is_some() && middle != " long " || target.map_or(false, |_| want_target) {
+            for _ in 0..11 {
+                s.push(b"abcdefghijklmnopqrstuvwxyz0123456789_-"[m.below(38) as usize] as char);
+            }
+        } else {
+            for _ in 0..6 {
+                s.push((b'a' + m.below(26) as u8) as char);
+            }
         }
         s.push_str(ext);
         let h = name_hash(&s);
@@ -139,6 +153,9 @@ pub fn eval(pop: &Population) -> CaseOut {
             return out;
         }
         sess = Some(s);
+        if std::env::var("VERIF_DEBUG").is_ok() {
+            eprintln!("step {} {:?} -> {:?}", i, op, res);
+        }
         match (op, res) {
             (NOp::Create { name, dir }, Ok(())) => {
                 // a name that folds onto an existing one just opens it
@@ -251,8 +268,50 @@ fn scripted(n: usize, fat: u8, salt: u64) -> Population {
     Population { fat, ops }
 }
 
+/// families aimed at the corners of the two alias forms
+fn scripted_corner(which: usize, fat: u8, salt: u64) -> Population {
+    let mut ops = Vec::new();
+    match which % 3 {
+        0 => {
+            // hash 0xFFFF .. 0xFFFD: 16 names each, so that the retry path has to step the hash past 0xFFFF
+            for (t, p) in [(0xFFFFu16, "zz"), (0xFFFE, "zy"), (0x0000, "zx")] {
+                for n in same_hash_family_target(p, " long ", ".log", 16, salt ^ t as u64, Some(t)) {
+                    ops.push(NOp::Create { name: n, dir: false });
+                }
+            }
+        }
+        1 => {
+            // the name's characters 3..6 spell its own hash: "abHHHH ..." arrives after four other members of the
+            // 6-character family "abHHHH", so its hash form "ABHHHH~1" is the long-prefix form of the first member
+            for k in 0..3u64 {
+                let h = (run::Mix::new(salt, 160 + k).next() & 0xFFFF) as u16;
+                let pre = format!("ab{:04x}", h);
+                for i in 0..4 {
+                    ops.push(NOp::Create { name: format!("{} plain member {}.txt", pre, i), dir: false });
+                }
+                for n in same_hash_family_target(&pre, " report ", ".txt", 3, salt ^ h as u64, Some(h)) {
+                    ops.push(NOp::Create { name: n, dir: false });
+                }
+            }
+        }
+        _ => {
+            // both at once with removals of low tails in between
+            for n in same_hash_family_target("qq", " long ", ".dat", 14, salt, Some(0xFFFF)) {
+                ops.push(NOp::Create { name: n, dir: false });
+                if ops.len() % 5 == 4 {
+                    ops.push(NOp::Remove { k: (ops.len() * 7919) as u16 });
+                }
+            }
+            for n in same_hash_family_target("qq", " long ", ".dat", 6, salt ^ 1, Some(0x0000)) {
+                ops.push(NOp::Create { name: n, dir: false });
+            }
+        }
+    }
+    Population { fat, ops }
+}
+
 pub fn run(tier: Tier, seed: u64) -> i32 {
-    let rule = "directory populations built through the public API to collide: names sharing the 6-character prefix and extension; families with the same 2-character prefix, extension and 16-bit name hash (found by search) so the hash form overflows and the retry path runs; names that look like generated aliases (PREFIX~1.TXT, AB1F2E~3.TXT); dots, spaces, non-ASCII, characters illegal in 8.3; deletions and re-creations in between; after EVERY step refdec checks on the raw image: short names byte-unique per directory, legal 8.3 bytes (upper case, no leading/embedded space), every long-name slot's checksum = checksum of its short entry, no orphan slots; every creation within a 6,000,000 device-call budget; non-trivial = population in which >= 4 live aliases share one ~N prefix form (second stage reached); distinct by hash of the population";
+    let rule = "directory populations built through the public API to collide: names sharing the 6-character prefix and extension; families with the same 2-character prefix, extension and 16-bit name hash (found by search) so the hash form overflows and the retry path runs; names that look like generated aliases (PREFIX~1.TXT, AB1F2E~3.TXT); corner families (16 names each with hash 0xFFFF / 0xFFFE / 0x0000 so that the retry path steps the hash across the 16-bit wrap; names whose characters 3..6 spell their own hash arriving as fifth member of their 6-character family); dots, spaces, non-ASCII, characters illegal in 8.3; deletions and re-creations in between; after EVERY step refdec checks on the raw image: short names byte-unique per directory, legal 8.3 bytes (upper case, no leading/embedded space), every long-name slot's checksum = checksum of its short entry, no orphan slots; every creation within a 6,000,000 device-call budget; non-trivial = population in which >= 4 live aliases share one ~N prefix form (second stage reached); distinct by hash of the population";
     let mut rep = Report::new("C16", tier, seed, "exploration", rule);
     let mut reg = Block::new("regress");
     for f in run::regress_files("C16") {
@@ -287,6 +346,23 @@ pub fn run(tier: Tier, seed: u64) -> i32 {
     });
     sb.exhaustive = false;
     rep.add(sb);
+    if !rep.failed() {
+        let n_corner: u64 = tier.pick(9, 60);
+        let cb = run::run_indexed("scripted_corner_families", n_corner, |i, blk| {
+            let fat = [12u8, 16, 32][(i / 3) as usize % 3];
+            let pop = scripted_corner(i as usize, fat, seed.wrapping_mul(31).wrapping_add(i / 3));
+            let out = eval(&pop);
+            blk.record(&out, || serde_json::json!({"fat": fat, "family": i % 3, "first_ops": &pop.ops[..8.min(pop.ops.len())]}));
+            out.violation.map(|m| {
+                let fails = |ops: &[NOp]| eval(&Population { fat, ops: ops.to_vec() }).violation.is_some();
+                let min = run::ddmin(&pop.ops, &fails);
+                let mp = Population { fat, ops: min };
+                let msg = eval(&mp).violation.unwrap_or(m);
+                Failure { message: msg, case: serde_json::to_value(&mp).unwrap(), kind: "population".into() }
+            })
+        });
+        rep.add(cb);
+    }
     if !rep.failed() {
         let fam1 = same_hash_family("ab", ".txt", 30, seed);
         let mut fam = fam1.clone();
